@@ -647,6 +647,17 @@ class EIO(Engine):
                     incs.append(self.inc('roundtrip|read-back=bytesio-as-written|raised', exc=kernel.canon(x)))
                 elif call(lambda: x.bin) != ('ok', bits):
                     incs.append(self.inc('roundtrip|read-back=bytesio-as-written|content-mismatch', want=bits[:100], got=kernel.canon(call(lambda: x.bin)[1])))
+            if raw:
+                # written and read back through ONE handle opened for update, nothing flushed or closed in between
+                p2 = os.path.join(self.fs.dir, f'rtw{cut_}')
+                with open(p2, 'w+b') as f2:
+                    st, v = call(src.tofile, f2)
+                    st, x = call(C, f2, length=len(bits)) if cut_ else call(C, f2)
+                    got = call(lambda: x.bin) if st == 'ok' else (st, x)
+                if got != ('ok', bits):
+                    incs.append(self.inc('roundtrip|read-back=same-update-handle-unflushed|' + ('raised' if got[0] != 'ok' else 'content-mismatch'),
+                                         want=bits[:100], got=kernel.canon(got[1])[:100] if isinstance(got[1], str) else kernel.canon(got[1])))
+                self.probe('roundtrip:same_handle')
             for how in ('filename', 'handle', 'bytes', 'bytesio'):
                 hh = None
                 try:
